@@ -446,6 +446,15 @@ func main() {
 		}
 		w.store.Close()
 	}
+	// HTTP-level cookie clause (GET/HEAD/DELETE with a wrong cookie) on a real volume server
+	if bin := os.Getenv("VERIF_BIN_C01HTTP"); bin != "" {
+		r.RunChild("http", bin, nil)
+		if r.Counter("http.wrong_cookie_reads_refused_on_live_blob") == 0 || r.Counter("http.wrong_cookie_deletes_harmless_on_live_blob") == 0 {
+			r.Inconclusive("HTTP child observed no wrong-cookie read/delete on a live blob")
+		}
+	} else {
+		r.Inconclusive("VERIF_BIN_C01HTTP not set: HTTP-level cookie clause not run")
+	}
 	if r.Counter("write_ok") == 0 || r.Counter("delete_ok") == 0 || r.Counter("reopen") == 0 {
 		r.Inconclusive("no successful write/delete/reopen observed")
 	}
